@@ -65,6 +65,8 @@ def make_config(name, log=None):
         "BioConsert[KwikSort]": lambda: BioConsert([rec(KwikSortRandom())]),
         "BioConsert[KwikSort,Borda]": lambda: BioConsert([rec(KwikSortRandom()), rec(BordaCount())]),
         "BioConsert[Copeland,PickAPerm]": lambda: BioConsert([rec(CopelandMethod()), rec(PickAPerm())]),
+        "BioConsert[Borda,Copeland]": lambda: BioConsert([rec(BordaCount()), rec(CopelandMethod())]),
+        "BioConsert[PickAPerm,Borda]": lambda: BioConsert([rec(PickAPerm()), rec(BordaCount())]),
         "BioCo": lambda: BioCo(),
         "KwikSortRandom": lambda: KwikSortRandom(),
         "Borda": lambda: BordaCount(),
@@ -444,6 +446,31 @@ def concrete_run(p):
     return ds, sc, alg, cons, exc, log
 
 
+def replay_dataset(p, sc):
+    """the real Dataset of a payload; with a recorded history: build the first dataset, aggregate once with the payload's
+    configuration (primes every cache), apply the in-place edit"""
+    from corankco.dataset import Dataset
+    if "history" not in p or "op" not in p["history"]:
+        return Dataset.from_raw_list(shapes.from_json(p["rankings"]))
+    from corankco.element import Element
+    from corankco.partitioning.ordered_partition import OrderedPartition
+    ds = Dataset.from_raw_list(shapes.from_json(p["history"]["first"]))
+    try:
+        a0, _ = make_config(p["config"], [])
+        a0.compute_consensus_rankings(ds, sc, p["flag"])
+        ds.get_positions(), ds.get_bucket_ids(), ds.universe, ds.unified_rankings()
+        OrderedPartition.parfront_partition(ds, sc)
+    except Exception:  # noqa
+        pass
+    op = p["history"]["op"]
+    if op[0] == "empty":
+        ds.remove_empty_rankings()
+    else:
+        names0 = sorted({x for r in p["history"]["first"] for b in r for x in b}, key=str)
+        ds.remove_elements({Element(x) for x in names0 if x not in {y for r in p["rankings"] for b in r for y in b}})
+    return ds
+
+
 def concrete_levels(p):
     names = sorted({x for r in p["rankings"] for b in r for x in b}, key=str)
     lvs = []
@@ -629,7 +656,8 @@ def run_item(args):
 
 
 # ------------------------------------------------------------------ item lists
-HEAVY = {"BioConsert", "BioConsert[Copeland]", "BioConsert[Borda]", "BioConsert[PickAPerm]", "BioConsert[KwikSort]",
+HEAVY = {"BioConsert", "BioConsert[Copeland]", "BioConsert[Borda]", "BioConsert[PickAPerm]", "BioConsert[KwikSort]", "BioConsert[Borda,Copeland]",
+         "BioConsert[PickAPerm,Borda]",
          "BioConsert[KwikSort,Borda]", "BioConsert[Copeland,PickAPerm]", "BioCo", "ParCons(1,BioConsert)"}
 NAMINGS = {1: [[5], ["x"]], 2: [[1, 2], [2, 1], ["b", "a"]], 3: [[1, 2, 3], [3, 1, 2], ["b", "a", "c"]],
            4: [[1, 2, 3, 4], [4, 2, 3, 1], ["d", "a", "c", "b"], ["1", "2", "3", "A"]]}
